@@ -162,6 +162,8 @@ def parse_time_expression(tick_rate: typing.Optional[int], frame_rate: typing.Op
 
   raise ValueError("Syntax error")
 
+_POSITION_KINDS_RE = re.compile(r"[hvcl]|[hcl][vcl]|[vc][hc]|[hc]vl|[vc]hl|hl[vc]|vl[hc]|hlvl|vlhl")
+
 def parse_position(attr_value: str) -> typing.Tuple[str, styles.LengthType, str, styles.LengthType]:
   '''Parse a TTML \\<position\\> value into offsets from a horizontal and vertical edge
   '''
@@ -178,6 +180,16 @@ def parse_position(attr_value: str) -> typing.Tuple[str, styles.LengthType, str,
   v_offset: typing.Optional[styles.LengthType] = None
 
   items = attr_value.split()
+
+  # check that the sequence of components is one of those allowed by the <position> syntax, with
+  # h = left | right, v = top | bottom, c = center and l = <length>
+
+  kinds = "".join(
+    "h" if item in h_edges else "v" if item in v_edges else "c" if item == "center" else "l" for item in items
+    )
+
+  if not _POSITION_KINDS_RE.fullmatch(kinds):
+    raise ValueError("Bad syntax for position")
 
   if len(items) in (1, 2):
 
